@@ -3,6 +3,7 @@ import ast
 
 from ..core import astutil as A
 from ..core import cfg as CFG
+from ..core import match as M
 from ..core.model import dotted
 
 META = {
@@ -56,7 +57,8 @@ def run(ctx):
     mt = [c for c in ea if any(k.arg == "mtime" for k in c.keywords)]
     ctx.check("R1", st_, bool(mt), "mtime-restored", "for caches keeping the checksum mtime outside the entry, the file mtime is set from the entry")
     hs = [p for p in A.parents(rn) if isinstance(p, ast.Try)]
-    ok = bool(hs) and any("os.remove(" + tmp + ")" in A.unparse(x) and any(isinstance(s, ast.Raise) for s in x.body) for x in hs[0].handlers)
+    tmp_env = {"$tmp": opens[0][1].args[0]}
+    ok = bool(hs) and any(M.has(x.body, "os.remove($$tmp)", tmp_env) and any(isinstance(s, ast.Raise) for s in x.body) for x in hs[0].handlers)
     ctx.check("R1", st_, ok, "failed-rename-cleans", "a failed rename removes the temporary and reports the failure")
     ctx.floor("R1", 8)
 
@@ -64,11 +66,14 @@ def run(ctx):
     fpv = [v for t, v, _ in A.assignments(st_.node) if A.unparse(t) == tmp]
     ctx.require(len(fpv) == 1 and isinstance(fpv[0], ast.Call), "flat_hash._setitem: temporary path expression not found")
     args = fpv[0].args
-    ok = dotted(fpv[0].func) == "pjoin" and len(args) == 3 and A.unparse(args[0]) == "self.location" and A.unparse(args[1]) == "cpv[:s]"
+    # `$s` = the local holding the split point between the entry's directory part and its basename
+    sm = M.one(st_.node, "$s = cpv.rfind('/') + 1")
+    s_env = dict(sm.env) if sm else {}
+    ok = M.pat("pjoin(self.location, cpv[:$s], $_)").matches(fpv[0], s_env) is not None
     ctx.check("R2", st_, ok, "temp-in-destination-dir", "the temporary lives in the entry's own directory (same filesystem: the rename is atomic)")
     prefix = A.fstring_prefix(args[-1]) if len(args) == 3 else None
     ctx.check("R2", st_, bool(prefix) and prefix.startswith(".update."), f"temp-prefix:{prefix}", f"the temporary's basename starts with {prefix!r}")
-    ctx.check("R2", st_, "s = cpv.rfind('/') + 1" in A.unparse(st_.node) and "cpv[s:]" in A.unparse(args[-1]), "temp-basename", "the temporary's basename is built from the entry's basename")
+    ctx.check("R2", st_, sm is not None and M.has(args[-1], "cpv[$s:]", s_env), "temp-basename", "the temporary's basename is built from the entry's basename")
     ks = P.func(FH, "database.keys")
     loops = [n for n in A.body_walk(ks.node) if isinstance(n, ast.For)]
     ctx.require(loops, "flat_hash.keys: directory loop not found")
@@ -84,7 +89,17 @@ def run(ctx):
         iff = [p for p in A.parents(c) if isinstance(p, ast.If)]
         ctx.check("R2", ks, bool(iff) and any(isinstance(s, ast.Continue) for s in iff[0].body) and iff[0].lineno < min((y.lineno for y in A.walk(loops[0]) if isinstance(y, (ast.Yield,))), default=10**9), "filter-skips-before-yield", "a matching name is skipped before anything is yielded")
     ys = [y for y in A.walk(loops[0]) if isinstance(y, ast.Yield)]
-    ctx.check("R2", ks, len(ys) == 1 and A.unparse(ys[0].value) in ("p[len_base + 1:]", "key"), "yields-relative-key", "keys are paths relative to the cache location")
+
+    def relative_key(e, depth=0):
+        """`e` is <path of the directory entry>[len(self.location) + 1:], directly or through one local"""
+        m = M.pat("$p[$n + 1:]").matches(e)
+        if m is not None:
+            return M.has(ks.node, "$n = len(self.location)", m.env) and M.has(loops[0], "$p = pjoin($_, $l)", dict(m.env, l=lv))
+        if isinstance(e, ast.Name) and depth == 0:
+            vs = [v for t, v, _ in A.assignments(ks.node, e.id) if A.contains_node(loops[0], t)]
+            return len(vs) == 1 and relative_key(vs[0], 1)
+        return False
+    ctx.check("R2", ks, len(ys) == 1 and ys[0].value is not None and relative_key(ys[0].value), "yields-relative-key", "keys are paths relative to the cache location")
     ctx.floor("R2", 8)
 
     # ---- R3 eclass conversion guards ---------------------------------------------------------------------------
@@ -109,29 +124,36 @@ def run(ctx):
     ctx.require(rec, "base.__getitem__: reconstruct_eclasses call not found")
     guards = [p for c in rec for p in A.parents(c) if isinstance(p, ast.If)]
     ctx.check("R3", gi, any(isinstance(p.test, ast.Compare) and isinstance(p.test.ops[0], ast.In) and A.is_const(p.test.left, "_eclasses_") for p in guards), "load-guard-membership", "the eclass string is parsed whenever the key is present")
-    ctx.check("R3", si, "d[self._chf_key] = self._chf_serializer(d.pop('_chf_'))" in A.unparse(si.node), "chf-stored-under-chf-key", "the validation checksum is stored under the cache's checksum key")
-    ro = [n for n in A.body_walk(si.node) if isinstance(n, ast.If) and A.unparse(n.test) == "self.readonly"]
-    ctx.check("R3", si, bool(ro) and isinstance(ro[0].body[0], ast.Raise), "readonly-guard", "a read-only cache refuses stores")
+    stored = stn[0].args[1] if len(stn[0].args) == 2 else None
+    d_env = {"d": stored.id} if isinstance(stored, ast.Name) else {}
+    ctx.check("R3", si, M.has(si.node, "$d[self._chf_key] = self._chf_serializer($d.pop('_chf_'))", d_env), "chf-stored-under-chf-key", "the validation checksum is stored under the cache's checksum key")
+    ctx.check("R3", si, M.has(si.node, "if self.readonly:\n    raise $_\n...\nself._setitem(...)"), "readonly-guard", "a read-only cache refuses stores")
     ctx.floor("R3", 5)
 
     # ---- R4 eclass tuple layout & tables --------------------------------------------------------------------------
     de = P.func(CM, "base.deconstruct_eclasses")
     re_ = P.func(CM, "base.reconstruct_eclasses")
-    td, tr = A.unparse(de.node), A.unparse(re_.node)
-    ctx.check("R4", de, "l.append(eclass)" in td and "l.extend((f(data) for f in converters))" in td and "converters = self.eclass_chf_serializers" in td, "writer-layout", "per eclass: name, then one field per checksum type")
-    ctx.check("R4", de, "self.eclass_splitter.join(l)" in td, "writer-splitter", "fields are joined with the splitter")
-    ctx.check("R4", re_, ".split(self.eclass_splitter)" in tr, "reader-splitter", "the reader splits on the same splitter")
-    ctx.check("R4", re_, "chf_funcs = self.eclass_chf_deserializers" in tr and "tuple_len = len(chf_funcs) + 1" in tr, "reader-layout", "the reader expects name + one field per checksum type")
-    ctx.check("R4", re_, "if eclass_data == ['']" in tr, "empty-string-is-empty-map", "an empty eclass string reads as no eclasses")
+    wl_ = M.one(de.node, "$conv = self.eclass_chf_serializers\nfor $ec, $data in eclass_dict.items():\n    $l.append($ec)\n    $l.extend(($f($data) for $f in $conv))")
+    ctx.check("R4", de, wl_ is not None, "writer-layout", "per eclass: name, then one field per checksum type")
+    ctx.check("R4", de, M.has(de.node, "self.eclass_splitter.join($l)", {"l": wl_["l"]} if wl_ else {}), "writer-splitter", "fields are joined with the splitter")
+    sp = M.one(re_.node, "$ed = $$s.split(self.eclass_splitter)")
+    ctx.check("R4", re_, sp is not None, "reader-splitter", "the reader splits on the same splitter")
+    ed_env = {"ed": sp["ed"]} if sp else {}
+    ctx.check("R4", re_, M.has(re_.node, "$cf = self.eclass_chf_deserializers\n$tl = len($cf) + 1"), "reader-layout", "the reader expects name + one field per checksum type")
+    ctx.check("R4", re_, M.has(re_.node, "if $ed == ['']:\n    return $_", ed_env), "empty-string-is-empty-map", "an empty eclass string reads as no eclasses")
     ser, des = P.func(CM, "base.eclass_chf_serializers"), P.func(CM, "base.eclass_chf_deserializers")
-    ctx.check("R4", ser, "for chf in self.eclass_chf_types" in A.unparse(ser.node) and "for chf in self.eclass_chf_types" in A.unparse(des.node), "same-type-list", "both directions iterate the same eclass_chf_types")
+
+    def over_types(fn):
+        return any(isinstance(n, (ast.For, ast.comprehension)) and A.unparse(n.iter) == "self.eclass_chf_types" for n in A.body_walk(fn.node))
+    ctx.check("R4", ser, over_types(ser) and over_types(des), "same-type-list", "both directions iterate the same eclass_chf_types")
     gs, gd = P.func(CM, "base._get_chf_serializer"), P.func(CM, "base._get_chf_deserializer")
 
     def table(fn):
         out = {}
         for n in A.body_walk(fn.node):
             if isinstance(n, ast.If) and isinstance(n.test, ast.Compare) and isinstance(n.test.comparators[0], ast.Constant):
-                out[n.test.comparators[0].value] = A.unparse(n.body[0].value)
+                hit = [r for r in n.body if isinstance(r, ast.Return)]
+                out[n.test.comparators[0].value] = A.unparse(hit[0].value) if hit else None
         rets = [r for r in fn.node.body if isinstance(r, ast.Return)]
         out["<default>"] = A.unparse(rets[-1].value) if rets else None
         return out
@@ -143,19 +165,27 @@ def run(ctx):
         ctx.check("R4", gs, ts.get(k) == a and tdz.get(k) == b, f"chf-pair:{k}", f"{k}: {a} / {b}", f"{k}: serializer {ts.get(k)} / deserializer {tdz.get(k)} are not the matching pair {a} / {b}")
     dd = P.func(CM, "base._default_deserializer")
     ds = P.func(CM, "base._default_serializer")
-    ctx.check("R4", dd, "int(data, 16)" in A.unparse(dd.node) and "long2str" in A.unparse(ds.node), "hex-both-ways", "digest checksums are hex in both directions")
+    ctx.check("R4", dd, M.has(dd.node, "int(data, 16)") and M.has(ds.node, "get_handler(chf).long2str($_)"), "hex-both-ways", "digest checksums are hex in both directions")
     ctx.floor("R4", 10)
 
     # ---- R5 line format ----------------------------------------------------------------------------------------------
     wl = [A.unparse(w.args[0]) for w in writes]
-    ctx.check("R5", st_, all(x in ("f'{k}={v}\\n'",) for x in wl), f"line-format:{wl[0][:20]}", "each pair is written as `key=value` + newline")
+
+    def kv_line(w):
+        """the write sits in `for <k>, <v> in ... values.items() ...` and writes f'{<k>}={<v>}\\n'"""
+        loop = A.enclosing(w, ast.For)
+        lm = M.pat("for $k, $v in $$it:\n    ...").matches(loop) if loop is not None else None
+        return lm is not None and M.has(loop.iter, "values.items()") and len(w.args) == 1 and M.pat("f'{$k}={$v}\\n'").matches(w.args[0], lm.env) is not None
+    ctx.check("R5", st_, all(kv_line(w) for w in writes), f"line-format:{wl[0][:20]}", "each pair is written as `key=value` + newline")
     pd = P.func(FH, "database._parse_data")
-    tp = A.unparse(pd.node)
-    ctx.check("R5", pd, "x.split('=', 1)" in tp, "split-first-equals", "lines are split on the FIRST '=' (values may contain '=')", "flat_hash._parse_data no longer splits on the first '=' only: values containing '=' are truncated or unpack fails", node=pd.node)
-    ctx.check("R5", pd, "if k in known" in tp and "known = self._known_keys" in tp, "known-keys-only", "only known keys are returned")
-    ctx.check("R5", pd, tp.count("d[self._chf_key] = self._chf_deserializer(d[self._chf_key])") == 2 and "d[self._chf_key] = int(mtime)" in tp, "chf-deserialised", "the validation checksum is deserialised (or taken from the file mtime)")
+    ln = M.one(pd.node, "for $x in data:\n    $k, $v = $x.split('=', 1)")
+    ctx.check("R5", pd, ln is not None, "split-first-equals", "lines are split on the FIRST '=' (values may contain '=')", "flat_hash._parse_data no longer splits on the first '=' only: values containing '=' are truncated or unpack fails", node=pd.node)
+    dm = M.one(pd.node, "$d = self._cdict_kls()\n...\nreturn $d")
+    pd_env = dict(ln.env if ln else {}, **(dm.env if dm else {}))
+    ctx.check("R5", pd, M.has(pd.node, "$known = self._known_keys\nfor $x in data:\n    $k, $v = $$line\n    if $k in $known:\n        $d[$k] = $v", pd_env), "known-keys-only", "only known keys are returned")
+    ctx.check("R5", pd, dm is not None and M.count(pd.node, "$d[self._chf_key] = self._chf_deserializer($d[self._chf_key])", dm.env) == 2 and M.has(pd.node, "$d[self._chf_key] = int(mtime)", dm.env), "chf-deserialised", "the validation checksum is deserialised (or taken from the file mtime)")
     gt = P.func(FH, "database._getitem")
-    ctx.check("R5", gt, "readlines_utf8(path, True, True, True)" in A.unparse(gt.node) and "raise KeyError(cpv)" in A.unparse(gt.node), "missing-is-keyerror", "a missing entry is a KeyError, unreadable content is CacheCorruption")
+    ctx.check("R5", gt, M.has(gt.node, "$data = readlines_utf8($path, True, True, True)\nif $data is None:\n    raise KeyError(cpv)"), "missing-is-keyerror", "a missing entry is a KeyError, unreadable content is CacheCorruption")
     ctx.floor("R5", 5)
 
 
